@@ -231,27 +231,10 @@ class C33(Check):
     assumptions = ["reference = plain Python sieve of Eratosthenes up to 4.2e6",
                    "after an iterator returned a value > its limit it is not used again (that is how every in-tree caller uses it)",
                    "a small Python model of the cache (end of cache, segment size, clear flag) only chooses limits; it is not part of the oracle"]
-    tiers = {"quick": {"examples": 1500}, "thorough": {"examples": 20000}}
+    tiers = {"quick": {"examples": 1500}, "thorough": {"examples": 50000}}
     min_nontrivial = 20
 
-    def setup_worker(self, tier):
-        # Is the segment overflow of Sieve::_extend (report: prime_sieve.cpp:69) present in this tree?  If the probe
-        # cannot be run at all the defect is assumed present (the exclusion only narrows the search).
-        self.kf_seg = True
-        probe = engine.Driver(self.variant, self.exe, 120.0, env={"ASAN_OPTIONS": engine.ASAN_OPTIONS.replace("symbolize=1", "symbolize=0")})
-        try:
-            for _ in range(2):
-                try:
-                    r = probe.run([["sieve_set_size", 1], ["sieve_generate_digest", 20000]])
-                    if isinstance(r, list) and len(r) == 2 and isinstance(r[1], list):
-                        self.kf_seg = False
-                    break
-                except engine.DriverCrash:
-                    break
-                except (engine.DriverTimeout, OSError):
-                    continue
-        finally:
-            probe.stop()
+    TAG = "sieve_segment_overflow"   # KF-C33-01: heap overflow in Sieve::_extend when an extension spans a whole segment
 
     def enumerate(self, tier):
         return fixed_histories()
@@ -269,7 +252,7 @@ class C33(Check):
 
     # ---------------------------------------------------------------- plan: resolve the history into a program
     def plan(self, steps, full=False):
-        m = Model(getattr(self, "kf_seg", False))
+        m = Model(self.tag_active(self.TAG))
         stmts = []
         checks = []        # (stmt index, kind, payload)
         its = []           # live iterators: dict(reg, limit, idx, done)
@@ -366,7 +349,7 @@ class C33(Check):
         try:
             res = self.run(stmts)
         except engine.DriverCrash as e:
-            if getattr(self, "kf_seg", False) and "Sieve::_extend" in e.stderr and "heap-buffer-overflow" in e.stderr:
+            if self.tag_active(self.TAG) and "Sieve::_extend" in e.stderr and "heap-buffer-overflow" in e.stderr:
                 # the generator's cache model mispredicted; the crash is the known defect, not a new one
                 self.skip("known:sieve_segment_overflow_crash")
                 return
